@@ -424,6 +424,9 @@ def extract_all(src):
     return out
 
 
+LOST_HINTS = {}     # contract function -> keys of template markers whose proof hints found no statement (filled by instantiate)
+
+
 def instantiate(template, slices):
     """Build the Verus file: inside each contract function of the template, the lines between two `//@stmt` markers are
     proof hints attached to the preceding marker (before the first marker: prologue).  The body is regenerated from the
@@ -468,17 +471,34 @@ def instantiate(template, slices):
             raise Undecided("template refers to unknown function %s" % fn)
         out.extend(pro)
         used = [False] * len(markers)
+        # renamed locals: when the extracted `let` statements and the template's `let` markers correspond one to one by position and only
+        # some names differ, a marker is attached to the statement at its position and the old name is kept alive as an alias, so that
+        # the hints (which mention the old name) still apply.  Only done when the old name occurs nowhere in the extracted code.
+        s_lets = [k for (k, t) in slices[fn] if k.startswith("let ")]
+        m_lets = [k for (k, h) in markers if k.startswith("let ")]
+        renames = {}
+        if s_lets != m_lets:
+            import difflib
+            body_txt = " ".join(t if isinstance(t, str) else " ".join(t.values()) for (k, t) in slices[fn])
+            for tag, i1, i2, j1, j2 in difflib.SequenceMatcher(None, s_lets, m_lets, autojunk=False).get_opcodes():
+                if tag == "replace" and i2 - i1 == j2 - j1:          # same number of statements between two matching neighbours: renames
+                    for a, b in zip(s_lets[i1:i2], m_lets[j1:j2]):
+                        if not re.search(r"\b%s\b" % re.escape(b[4:]), body_txt) and b not in s_lets:
+                            renames[a] = b
         for (skey, text) in slices[fn]:
             hit = None
+            mkey = renames.get(skey, skey)
             for j, (key, hints) in enumerate(markers):
                 if used[j]:
                     continue
                 if skey == "struct" and key.startswith("struct"):
                     hit = j
                     break
-                if skey != "struct" and (skey == key or skey.startswith(key)):
+                if skey != "struct" and (mkey == key or mkey.startswith(key)):
                     hit = j
                     break
+            if skey in renames and hit is not None and isinstance(text, str):
+                text = text + " let %s = %s;" % (renames[skey][4:], skey[4:])      # alias for the proof hints (renamed local)
             if skey == "struct":
                 want = markers[hit][0].split()[1:] if hit is not None else sorted(text)
                 missing = [f for f in want if f not in text]
@@ -492,6 +512,7 @@ def instantiate(template, slices):
             if hit is not None:
                 used[hit] = True
                 out.extend(markers[hit][1])
+        LOST_HINTS[fn] = [markers[j][0] for j in range(len(markers)) if not used[j] and any(h.strip() for h in markers[j][1])]
     return "\n".join(out) + "\n"
 
 
@@ -571,6 +592,7 @@ def run_stage(scratch, tier, log, prop):
         return [Obligation(n, "extraction", UNDECIDED, detail=str(e), functions=[f]) for (n, p, fn, f) in mine]
     rc, out, secs, path = run_verus(scratch, text, "synchro")
     # proof hints that mention a local the extracted code no longer has are dropped (a hint is never needed for soundness)
+    dropped_in = set()
     for _ in range(6):
         bad = set()
         for em in re.finditer(r"^error(?:\[[A-Z0-9]+\])?: (cannot find value|cannot find function|mismatched types|no field)[^\n]*\n\s*--> [^:\n]*:(\d+):", out, re.M):
@@ -582,6 +604,7 @@ def run_stage(scratch, tier, log, prop):
             break
         lines_ = text.splitlines()
         for ln in bad:
+            dropped_in.add(function_at(text, ln)[0])
             lines_[ln - 1] = "        // (proof hint dropped: refers to a name the extracted code does not have)"
         text = "\n".join(lines_) + "\n"
         rc, out, secs2, path = run_verus(scratch, text, "synchro")
@@ -608,11 +631,44 @@ def run_stage(scratch, tier, log, prop):
                                   detail="verus reported a non-verification error (type error / resource limit): %s" % hard[0]["msg"], checks=1))
         elif fn in failed_fns:
             st = UNDECIDED if any(re.search(r"rlimit|Resource", x) for x in failed_fns[fn]) or (hard and any(h["msg"] in x for h in hard for x in failed_fns[fn])) else FAILED
-            obs.append(Obligation(n, "verus-0.2026.09.13/z3", st, per, "complete", [f],
-                                  detail="; ".join(failed_fns[fn])[:900], checks=1, output=out[-4000:]))
+            det = "; ".join(failed_fns[fn])[:900]
+            if st == FAILED and (fn in dropped_in or LOST_HINTS.get(fn)):
+                # the proof lost hints (renamed / restructured code): a failed obligation then says nothing about the code - undecided, never an alarm
+                st = UNDECIDED
+                det = "proof hints of the template no longer match the extracted code (%s), so the failed obligation is not a verdict: %s" % (
+                    ", ".join(LOST_HINTS.get(fn) or ["hint lines dropped"])[:200], det[:600])
+            obs.append(Obligation(n, "verus-0.2026.09.13/z3", st, per, "complete", [f], detail=det, checks=1, output=out[-4000:]))
         else:
             obs.append(Obligation(n, "verus-0.2026.09.13/z3", DISCHARGED, per, "complete", [f], checks=1,
                                   detail="verified (%s functions verified in file)" % nver))
+    # concrete-configuration refutation (vlib/tierc_concrete.py) for functions Verus rejected or could not decide: a counterexample is a
+    # (configuration, call index) of the *real* statements, replayed natively through the public API.  An undecided obligation is turned
+    # into a violation only when the native replay reproduces the failure on the real code.
+    todo = [o for o in obs if o.status in (FAILED, UNDECIDED) and o.functions and o.functions[0].split("::")[0] in FUNCS]
+    if todo:
+        from . import tierc_concrete
+        cache = {}
+        for o in todo:
+            T = o.functions[0].split("::")[0]
+            if T not in cache:
+                try:
+                    cex = tierc_concrete.refute(src, T)
+                    rep = tierc_concrete.replay(scratch, cex) if cex else (False, "")
+                except Exception as ex:      # the refuter is an aid: its own trouble is never an alarm
+                    cex, rep = None, (False, "refuter error: %r" % (ex,))
+                cache[T] = (cex, rep)
+            cex, (reproduced, text_) = cache[T]
+            if cex is None:
+                continue
+            if o.status == UNDECIDED and not reproduced:
+                o.detail = (o.detail + " | concrete refuter: %s (not reproduced natively: %s)" % (cex["what"], text_))[:1200]
+                continue
+            o.status = FAILED
+            o.counterexample = cex
+            o.replayed = reproduced
+            o.replay_text = text_
+            o.detail = ("%s | failing configuration: %s::new(%d, %d, %d, %s1) call #%d: %s" % (
+                o.detail[:500], T, cex["rate_in"], cex["rate_out"], cex["chunk"], "" if T == "FftFixedInOut" else "%d, " % cex["sub_chunks"], cex["call"], cex["what"]))[:1200]
     if prop in ("C03", "C04", "C07"):      # the properties whose FFT obligations use the two idioms' contracts
         obs += f32div_lemma()
     return obs
